@@ -79,3 +79,11 @@ package id
 //@   modifies nothing
 //@   ensures [every-identifier-comes-from-the-time-ordered-sequence]
 //@     evlen == old(evlen) + 1 && isCall(ev(old(evlen))) && evch(ev(old(evlen))) == code("sno|(*Generator).New") && evval(ev(old(evlen))) == iface(g.Generator)
+
+// What a generator hands out as its snapshot is the library's own snapshot, unaltered: a generator restored from it
+// continues where the library says this one stopped (partition, time and sequence), which is what the library's
+// distinctness claim after a restore is about.
+//@ func (*SnoGenerator).Snapshot
+//@   prop C20
+//@   modifies nothing
+//@   ensures [the-snapshot-handed-out-is-the-librarys-own-unaltered] result == sonic.Marshal(g.Generator.Snapshot())
